@@ -52,8 +52,8 @@ theorem lk_connectIns (T : Nat → Prop) (N : Nat) (PO : Nat → Prop)
     connectIns m mapA pins (a, renA) = some (a', renA') →
     renA none = none → (pins.filterMap (·.2)).Nodup →
     (∀ ll, T ll → ¬ G ll → ∃ ll', renA (some ll) = some ll' ∧ ll' < a.lines.size ∧ ψ ll' = ll) →
-    (∀ ll ∈ pins.filterMap (·.2), T ll ∧ ¬ G ll ∧ ¬ PO ll ∧ ll < b.lines.size) →
-    (∀ inn ll, (inn, some ll) ∈ pins → ignoredPort m inn = true → ∀ x, π x = (b.line ll).driver → ¬ Own x) →
+    (∀ ll ∈ pins.filterMap (·.2), T ll ∧ ¬ G ll ∧ ll < b.lines.size) →
+    (∀ inn ll, (inn, some ll) ∈ pins → ignoredPort m inn = true → ¬ PO ll ∧ ∀ x, π x = (b.line ll).driver → ¬ Own x) →
     ∃ b' ψ' G', connectIns m mapB (pins.map (clrIgn m)) (b, id) = some (b', id) ∧
       Lk Own π ψ' G' G' PO a' b' ∧ a'.nodes.size = N ∧ renA' none = none ∧
       (∀ ll, T ll → ¬ G' ll → ∃ ll', renA' (some ll) = some ll' ∧ ll' < a'.lines.size ∧ ψ' ll' = ll) ∧
@@ -91,7 +91,7 @@ theorem lk_connectIns (T : Nat → Prop) (N : Nat) (PO : Nat → Prop)
   | (inn, some ll0) :: rest, a, b, renA, ψ, G, a', renA', lk, hN, he, hr0, hnd, hT, hP, hgd => by
     have hnd' : ll0 ∉ rest.filterMap (·.2) ∧ (rest.filterMap (·.2)).Nodup := by
       simpa [List.filterMap_cons] using hnd
-    obtain ⟨t0, g0, po0, lb0⟩ := hP ll0 (by simp [List.filterMap_cons])
+    obtain ⟨t0, g0, lb0⟩ := hP ll0 (by simp [List.filterMap_cons])
     obtain ⟨ll', hren, hll', hψ⟩ := hT ll0 t0 g0
     simp only [connectIns, hren] at he
     by_cases hig : ignoredPort m inn = true
@@ -101,8 +101,9 @@ theorem lk_connectIns (T : Nat → Prop) (N : Nat) (PO : Nat → Prop)
       split at he
       · exact absurd he (by simp)
       · rename_i a1 hrm
+        have po0 : ¬ PO ll0 := (hgd inn ll0 List.mem_cons_self hig).1
         have hdrv := lk.drv ll' hll' (by rw [hψ]; exact po0)
-        have hown : ¬ Own (a.line ll').driver := hgd inn ll0 List.mem_cons_self hig _ (by rw [← hψ]; exact hdrv.2.1)
+        have hown : ¬ Own (a.line ll').driver := (hgd inn ll0 List.mem_cons_self hig).2 _ (by rw [← hψ]; exact hdrv.2.1)
         have lk1 := lk.stepRemove ll' hll' (by rw [hψ]; exact Or.inr (by simp [List.filterMap_cons]))
           (by rw [hψ]; exact po0) hown a1 hrm
         have hsp := removeLineF_spec a (fun y => PO (ψ y)) ll' hll' (by rw [hψ]; exact po0)
@@ -136,8 +137,8 @@ theorem lk_connectIns (T : Nat → Prop) (N : Nat) (PO : Nat → Prop)
             by_cases e : x = a.lines.size - 1 <;> simp [e])
           (by
             intro ll hll
-            obtain ⟨p1, p2, p3, p4⟩ := hP ll (by simp [List.filterMap_cons, hll])
-            refine ⟨p1, ?_, p3, p4⟩
+            obtain ⟨p1, p2, p4⟩ := hP ll (by simp [List.filterMap_cons, hll])
+            refine ⟨p1, ?_, p4⟩
             rintro (hc | hc)
             · exact p2 hc
             · subst hc; exact hnd'.1 hll)
@@ -187,15 +188,16 @@ theorem lk_connectIns (T : Nat → Prop) (N : Nat) (PO : Nat → Prop)
             exact ⟨x, hx1, by rw [(setReader_sizes a ll' r rp).2.1]; exact hx2, hx3⟩)
           (by
             intro ll hll
-            obtain ⟨p1, p2, p3, p4⟩ := hP ll (by simp [List.filterMap_cons, hll])
-            exact ⟨p1, p2, p3, by rw [hsb.2.1]; exact p4⟩)
+            obtain ⟨p1, p2, p4⟩ := hP ll (by simp [List.filterMap_cons, hll])
+            exact ⟨p1, p2, by rw [hsb.2.1]; exact p4⟩)
           (by
-            intro inn' ll hm hi x hx
+            intro inn' ll hm hi
+            refine ⟨(hgd inn' ll (List.mem_cons_of_mem _ hm) hi).1, fun x hx => ?_⟩
             have hlt : ll < b.lines.size := (hP ll (by
               simp only [List.filterMap_cons, List.mem_cons]
-              exact Or.inr (List.mem_filterMap.mpr ⟨(inn', some ll), hm, rfl⟩))).2.2.2
+              exact Or.inr (List.mem_filterMap.mpr ⟨(inn', some ll), hm, rfl⟩))).2.2
             rw [setReader_line b _ _ _ _ hlt] at hx
-            apply hgd inn' ll (List.mem_cons_of_mem _ hm) hi x
+            apply (hgd inn' ll (List.mem_cons_of_mem _ hm) hi).2 x
             rw [hx]; split <;> rfl)
         refine ⟨b', ψ', G', ?_, q2, q3, q4, q5, ?_, q7.trans hsb.2.1, q8.trans hsb.1, ?_⟩
         · simp only [List.map_cons, clrIgn, connectIns, id, hig, Bool.false_eq_true, if_false, hig']
